@@ -82,9 +82,9 @@ def build_harness(need_wire=False):
     hdir = os.path.join(VERIF, "tools", "harness")
     with open(os.path.join(hdir, "overlay.json")) as f:
         full = json.load(f)["Replace"]
-    full = {k: v for k, v in full.items() if os.path.exists(v)}
+    full = {(REPO + k[len("/repo"):] if k.startswith("/repo/") else k): v for k, v in full.items() if os.path.exists(v)}
     base = {k: v for k, v in full.items() if not os.path.basename(k).startswith("wire")}
-    base["/repo/cmd/verifharness/wire.go"] = os.path.join(hdir, "stub", "wire.go")
+    base[REPO + "/cmd/verifharness/wire.go"] = os.path.join(hdir, "stub", "wire.go")
     attempts = [full] if need_wire else [full, base]
     out = ""
     for i, repl in enumerate(attempts):
